@@ -69,6 +69,8 @@ struct Workload {
   //   4 = mesh coded with the deprecated predictive Edgebreaker traversal
   //       (current bitstream version; the library's own, no longer selectable,
   //       encoder implementation: legacy_eb.cc)
+  //   5 = Byzantine Edgebreaker writer (byz.cc): a well-formed but semantically
+  //       arbitrary stream derived from |gseed| (0 = the valid reference quad)
   int legacy = 0;
 
   Json ToJson() const;
